@@ -274,6 +274,23 @@ fn check_schema(ctx: &mut Ctx, b: &[u8], root: &R, seed: u64) {
                 _ => ctx.fail("schema-result-malformed", format!("result does not serialise to JSON: {:?}", crate::core::truncate(&got_txt, 200))),
             }
             let _ = v.is_object();
+            // a replaced member is what a parse of its own text gives in this build (raw literals
+            // under arbitrary_precision, lossy strings under utf8_lossy): compared as serialised text
+            if let (K::Obj(ms), Some(so)) = (&root.k, schema.as_object()) {
+                for (k, dv) in ms.iter() {
+                    let Some(ks) = k.key_str() else { continue };
+                    if !so.contains_key(ks) || matches!(dv.k, K::Obj(_)) {
+                        continue;
+                    }
+                    let Some(member) = v.get(ks) else { continue };
+                    let got = sonic_rs::to_string(member).unwrap_or_default();
+                    let alone = sonic_rs::from_slice::<Value>(&b[dv.start..dv.end]).ok().and_then(|x| sonic_rs::to_string(&x).ok());
+                    if alone.as_deref() != Some(got.as_str()) {
+                        ctx.fail("schema-member-not-as-parsed-alone", format!("member {:?}: get_by_schema gives {:?}, parsing its text {:?} alone gives {:?}", ks, crate::core::truncate(&got, 100), crate::core::truncate(&String::from_utf8_lossy(&b[dv.start..dv.end]), 100), alone.map(|a| crate::core::truncate(&a, 100))));
+                        break;
+                    }
+                }
+            }
         }
         Err(e) => ctx.fail("schema-failed", format!("get_by_schema failed on a well-formed document: {} ; schema {}", crate::mon::common::err_brief(&e), crate::core::truncate(&schema_txt, 200))),
     }
